@@ -67,7 +67,7 @@ Proof.
   intros Hit Hd. unfold items_of in Hit. rewrite !in_app_iff, !in_map_iff in Hit.
   destruct Hit as [(a & <- & Ha)|[(s & <- & Hs)|[(e & <- & He)|(c & <- & Hc)]]]; cbn [py_decl_of] in Hd.
   - (* alias *)
-    c09_bind Hd ty s3 E. c09_ret Hd.
+    c09_bind Hd ty s3 E. c09_bind Hd utv s4 Etv. c09_ret Hd.
     assert (Hn : defname (c09_ent_alias a) = renamed (aid a)) by (unfold c09_def_name; cbn; apply app_nil_r).
     cbn [flat_map py_obs app]. intros o [<-|[]]. split.
     + intros _. exists (c09_ent_alias a). split; [exact (c09_in_alias pd' a Ha)|]. split; [apply pyl_defines|]. rewrite Hn. reflexivity.
